@@ -470,3 +470,14 @@ Theorem C15_seq_parser_code_no_panic : forall pf callskip r st name a ts tm f, l
   fn_xmlSeqToMapParser (PureG15.run_cast pf callskip st) (PureG15.run_escapeChars st) f st name a (ts, tm) r <> Crash.
 Proof. exact seq_parser_code_no_panic. Qed.
 Print Assumptions C15_seq_parser_code_no_panic.
+
+(* ---- NewMapXmlSeq, the whole translated chain below it (entry point, xmlSeqToMap with its decoder configuration,
+   xmlSeqToMapParser, cast, escapeChars; GenProofs/PureG39.v): no panic on any bytes, under any options and any decoder
+   configuration, whatever encoding/xml's tokenizer returns *)
+From Mxj Require GenProofs.PureG39.
+
+Theorem C15_new_map_xml_seq_code_no_panic : forall pf callskip o newdec usecd setcr st doc cast,
+  PureG15.seq_view st o -> PureG.cast_view st o ->
+  fn_NewMapXmlSeq (PureG39.run_xmlSeqToMap pf callskip newdec usecd setcr st) st doc cast <> Crash.
+Proof. exact PureG39.new_map_xml_seq_code_no_panic. Qed.
+Print Assumptions C15_new_map_xml_seq_code_no_panic.
